@@ -93,3 +93,10 @@ CHECKS["C18"] = dict(
  text="For ALL (non-zero) coefficient values and every expression tree over +, scalar *, / with up to 4 (quick) / 5 (thorough) leaves, the real NumberState/FockStateVector operator methods produce a preparation whose amplitude map equals the linear combination denoted by the tree; for every class exportable to Blackbird the params dict order equals the constructor signature, the name maps are mutually inverse and modes pass through; registering a program inside another writes nothing reachable from the inner program and maps modes through the register. Text-level round trips (blackbird, exec(as_code), from_dict, copy) and nested register mappings are bounded stand-ins. Two defects found and fixed in /repo.",
  note="tree shapes enumerated; blackbird serializer and exec are external; deepcopy assumed structural",
 )
+ENGINES[1]["serves_properties"] = ["C03", "C06", "C08", "C11", "C12", "C13", "C14", "C15", "C16", "C18", "C20"]
+CHECKS["C15"] = dict(
+ engine="rtc", category="exploration", design_ref="DESIGN.md 5/C15",
+ technique="bounded only: the per-function post-conditions of the property as run-time contracts on random and structured/degenerate inputs (no deductive obligation is possible for LAPACK-based float code)",
+ text="Bounded stand-in only, never counted as proved: takagi (U unitary, s >= 0, U diag(s) U^T = A), williamson (S real symplectic, D positive diagonal paired per mode, S D S^T = M), euler (Bloch-Messiah factors recompose P and A), clements -> inverse_clements / weights round trip / instruction list, Graph mean photon number - on Haar-random and degenerate inputs (identity, permutations, block-diagonal, repeated and zero singular/symplectic values, d = 1).",
+ note="exploration level: dimension <= 4 quick / 6 thorough, tolerance 1e-8; nothing proved",
+)
